@@ -1921,6 +1921,13 @@ impl Typer {
                         tast::Ty::TRef {
                             elem: Box::new(elem_ty),
                         }
+                    } else if name.as_str() == "array_set"
+                        && args_tast.len() == 3
+                        && matches!(args_tast[0].get_ty(), tast::Ty::TArray { .. })
+                    {
+                        // the builtin's signature leaves the length open; the result is an array
+                        // of the same type as the one passed in
+                        args_tast[0].get_ty()
                     } else {
                         self.fresh_ty_var()
                     };
